@@ -5037,6 +5037,14 @@ class PyCdlib:
             # all want exactly one entry per directory.
             raise pycdlibexception.PyCdlibInvalidInput('Cannot make a hard link to a directory')
 
+        if old_rec.is_symlink():
+            # A symlink has no file contents either.  Its target lives in the
+            # Rock Ridge entries of its own Directory Record or is described
+            # by its own UDF File Entry, neither of which a link made here
+            # would get; it would be a symlink without a target, or a regular
+            # file holding the raw path components.
+            raise pycdlibexception.PyCdlibInvalidInput('Cannot make a hard link to a symlink (use add_symlink to make another one)')
+
         if fmode == 0 and self.rock_ridge:
             # Only an ISO9660 old path comes with a Rock Ridge file mode.  If
             # the new record gets Rock Ridge it needs one, since a mode of 0
